@@ -113,10 +113,10 @@ type conn struct {
 func (c *conn) ev(op, sql string) {
 	c.p.led.add(Event{Op: op, Class: c.p.class, Slice: c.p.slice, Conn: c.id, SQL: sql})
 }
-func (c *conn) Recycle()           { c.ev("recycle", "") }
-func (c *conn) Reconnect() error   { return nil }
-func (c *conn) Close()             { c.closed = true; c.ev("close", "") }
-func (c *conn) IsClosed() bool     { return c.closed }
+func (c *conn) Recycle()              { c.ev("recycle", "") }
+func (c *conn) Reconnect() error      { return nil }
+func (c *conn) Close()                { c.closed = true; c.ev("close", "") }
+func (c *conn) IsClosed() bool        { return c.closed }
 func (c *conn) UseDB(db string) error { c.ev("usedb", db); return nil }
 func (c *conn) Execute(sql string, maxRows int) (*mysql.Result, error) {
 	c.ev("exec", sql)
@@ -125,11 +125,11 @@ func (c *conn) Execute(sql string, maxRows int) (*mysql.Result, error) {
 func (c *conn) ExecuteWithTimeout(sql string, maxRows int, timeout time.Duration) (*mysql.Result, error) {
 	return c.Execute(sql, maxRows)
 }
-func (c *conn) SetAutoCommit(v uint8) error { c.ev("autocommit", fmt.Sprint(v)); return nil }
-func (c *conn) Begin() error                 { c.ev("begin", ""); return nil }
-func (c *conn) Commit() error                { c.ev("commit", ""); return nil }
-func (c *conn) Rollback() error              { c.ev("rollback", ""); return nil }
-func (c *conn) Ping() error                  { return nil }
+func (c *conn) SetAutoCommit(v uint8) error         { c.ev("autocommit", fmt.Sprint(v)); return nil }
+func (c *conn) Begin() error                        { c.ev("begin", ""); return nil }
+func (c *conn) Commit() error                       { c.ev("commit", ""); return nil }
+func (c *conn) Rollback() error                     { c.ev("rollback", ""); return nil }
+func (c *conn) Ping() error                         { return nil }
 func (c *conn) PingWithTimeout(time.Duration) error { return nil }
 func (c *conn) SetCharset(charset string, collation mysql.CollationID) (bool, error) {
 	return false, nil
@@ -155,19 +155,19 @@ func (c *conn) ReadMoreResult(maxRows int) (*mysql.Result, error)           { re
 
 type nullLogger struct{}
 
-func (nullLogger) SetLevel(name, level string) error                         { return nil }
-func (nullLogger) Debug(format string, a ...interface{}) error               { return nil }
-func (nullLogger) Trace(format string, a ...interface{}) error               { return nil }
-func (nullLogger) Notice(format string, a ...interface{}) error              { return nil }
-func (nullLogger) Warn(format string, a ...interface{}) error                { return nil }
-func (nullLogger) Fatal(format string, a ...interface{}) error               { return nil }
-func (nullLogger) Debugx(logID, format string, a ...interface{}) error       { return nil }
-func (nullLogger) Tracex(logID, format string, a ...interface{}) error       { return nil }
-func (nullLogger) Noticex(logID, format string, a ...interface{}) error      { return nil }
-func (nullLogger) Warnx(logID, format string, a ...interface{}) error        { return nil }
-func (nullLogger) Fatalx(logID, format string, a ...interface{}) error       { return nil }
-func (nullLogger) Close()                                                    {}
-func (nullLogger) Dropped(i int) uint64                                      { return 0 }
+func (nullLogger) SetLevel(name, level string) error                    { return nil }
+func (nullLogger) Debug(format string, a ...interface{}) error          { return nil }
+func (nullLogger) Trace(format string, a ...interface{}) error          { return nil }
+func (nullLogger) Notice(format string, a ...interface{}) error         { return nil }
+func (nullLogger) Warn(format string, a ...interface{}) error           { return nil }
+func (nullLogger) Fatal(format string, a ...interface{}) error          { return nil }
+func (nullLogger) Debugx(logID, format string, a ...interface{}) error  { return nil }
+func (nullLogger) Tracex(logID, format string, a ...interface{}) error  { return nil }
+func (nullLogger) Noticex(logID, format string, a ...interface{}) error { return nil }
+func (nullLogger) Warnx(logID, format string, a ...interface{}) error   { return nil }
+func (nullLogger) Fatalx(logID, format string, a ...interface{}) error  { return nil }
+func (nullLogger) Close()                                               {}
+func (nullLogger) Dropped(i int) uint64                                 { return 0 }
 
 var _ log.Logger = nullLogger{}
 
